@@ -10,7 +10,9 @@ Streams
   delta    real ForgivingFactorBits.delta() vs the float64 simulation with numpy's logs as oracle
   size     real compute_model_size vs Lean computeModelSize
 Clause oracle (on the REAL outputs only): within_limit / from_config / excluded_unquantized /
-group_shared / architecture / delta_zero / delta_sign / delta_monotone.
+group_shared / architecture / adjust_documented / delta_zero / delta_sign / delta_monotone.
+The limits the oracle judges with are derived from the USER's dictionary by `doc_limit` (the documented
+role-wise completion), never read back from `hm.limit`.
 """
 import contextlib
 import copy
@@ -133,6 +135,39 @@ def lim_at(limit, key, index):
     return v[index]
   except IndexError:
     return None
+
+
+def doc_limit(user_limit, registered, sequence):
+  """the limit dictionary as DOCUMENTED (class comment of AutoQKHyperModel: "Conv2D/Dense:
+  [weight, bias, activation]", "RNN: [weight, bias, recurrent, activation]", "default replaces missing
+  values"), derived from the USER's dictionary role by role — not with the slices of `_adjust_limit` and
+  not from `hm.limit`.  A scalar default stands for every role; a 3-list default is
+  [weight, bias, activation]; a 4-list default is [weight, bias, recurrent, activation].  Only class keys
+  of REGISTERED_LAYERS are completed; pattern keys, "Activation" and unknown keys stay as given."""
+  d = user_limit.get("default", None)
+  if d is None:
+    d = 8
+  if isinstance(d, list):
+    if len(d) == 3:
+      role_default = {"weight": d[0], "bias": d[1], "activation": d[2]}
+    elif len(d) == 4:
+      role_default = {"weight": d[0], "bias": d[1], "recurrent": d[2], "activation": d[3]}
+    else:
+      return None            # the constructor refuses such a default
+  else:
+    role_default = {"weight": d, "bias": d, "activation": d}
+  out = {}
+  for key, v in user_limit.items():
+    if key in registered and isinstance(v, list):
+      roles = ["weight", "bias", "recurrent", "activation"] if key in sequence else ["weight", "bias", "activation"]
+      v = list(v)
+      if len(v) < len(roles):
+        missing = roles[len(v):]
+        if any(r not in role_default for r in missing):
+          return None        # a recurrent class needs the 4-element default; the constructor asserts
+        v = v + [role_default[r] for r in missing]
+    out[key] = v
+  return out
 
 
 # --------------------------------------------------------------------------- reference models
@@ -259,6 +294,21 @@ def qm_configs(tier, default_cfg):
       ("names", {"_x$": [1, 4, 2], "bias": [2, 4, 3], "Dense": [4, 4, 4]}, S, {}),
       ("mlp", {"out": [2, 4, 3], "1": [1, 4, 1], "[01]$": [1, 4, 2]}, S, {}),
       ("conv", {"_a": [2, 4, 2], "b$": [1, 4, 2], "Dense": [4, 4, 4]}, S, {}),
+      # PARTIAL class entries completed from a list default (`_adjust_limit`): the missing slot must receive
+      # the default of ITS role.  4-element defaults [weight, bias, recurrent, activation] with
+      # recurrent > activation and a non-recurrent class with 0 / 1 / 2 values: a fused relu / sigmoid must
+      # stay within the ACTIVATION default; the scripts reach every activation option the code offers
+      ("mlp", {"default": [4, 4, 8, 2], "Dense": [1], "Activation": [3]}, S, {}),
+      ("mlp", {"default": [2, 8, 6, 1], "Dense": [2, 4]}, S, {"activation_bits": 2}),
+      ("conv", {"default": [4, 4, 8, 2], "Conv2D": [2, 4], "Dense": [], "DepthwiseConv2D": [4]}, S, {}),
+      ("names", {"default": [1, 4, 8, 3], "Dense": [1], "kernel_a.*": [3]}, S, {}),
+      # 3-element default [weight, bias, activation], every role different; list-valued default slots
+      ("mlp", {"default": [2, 8, 3], "Dense": [1], "Activation": [3]}, S, {}),
+      ("conv", {"default": [1, 8, 6], "Conv2D": [], "DepthwiseConv2D": [1, 4], "Dense": [1]}, S, {}),
+      ("mlp", {"default": [4, ["quantized_bits(8,3,1)"], ["ternary"], ["binary", "quantized_relu(3,1)"]],
+               "Dense": [2]}, S, {}),
+      # default 4-list whose recurrent slot is NARROWER than the activation one (a slot shifted the other way)
+      ("mlp", {"default": [1, 8, 1, 6], "Dense": []}, S, {}),
   ]
   if tier != "quick":
     out += [
@@ -271,6 +321,9 @@ def qm_configs(tier, default_cfg):
   rnn = [
       ("rnn", {"Conv1D": [1, 4, 1], "lstm_a": [1, 4, 4, 1], "SimpleRNN": [4, 8, 4, 3], "Dense": [1, 4, 4]}, R, {}),
       ("rnn", {"LSTM": [2, 4], "SimpleRNN": [1, 4, 1, 1], "default": [4, 4, 4, 1]}, R, {}),
+      # recurrent and non-recurrent classes completed from the same 4-element default: LSTM / SimpleRNN
+      # take the recurrent slot, Conv1D / Dense must not
+      ("rnn", {"default": [1, 4, 2, 1], "LSTM": [1], "SimpleRNN": [], "Conv1D": [1], "Dense": [1, 8]}, R, {}),
   ]
   return out, rnn
 
@@ -331,6 +384,28 @@ def stream_adjust(run, ai, rng, tier):
     if impl != o:
       run.disagree("adjust", lim, impl, o)
     if "err" not in impl:
+      # clause: the limit the hyper-model works with is the user's dictionary completed by the DOCUMENTED
+      # rule (missing weight / bias / recurrent / activation slot <- the default of THAT role)
+      doc = doc_limit(lim, ai.REGISTERED_LAYERS, ai.SEQUENCE_LAYERS)
+      if doc is not None:
+        run.count("adjust_documented_judged")
+        def roles_of(k, v):
+          # what `_get_quantizer` can read of an entry: weight [0], bias [1], activation [-1] and, for a
+          # recurrent class, the recurrent kernel [2]; other keys are compared whole
+          if k in ai.REGISTERED_LAYERS and isinstance(v, list) and len(v) >= 3:
+            return [v[0], v[1], v[-1]] + ([v[2]] if k in ai.SEQUENCE_LAYERS else [])
+          return v
+        got = dict((k, v) for k, v in impl["limit"])
+        bad = [k for k in doc if k not in got or roles_of(k, got[k]) != roles_of(k, doc[k])]
+        bad += [k for k in got if k not in doc]
+        if bad or list(got) != list(doc):
+          dflt = lim.get("default")
+          run.violate("adjust_documented",
+                      {"site": "_adjust_limit", "default": ("list%d" % len(dflt)) if isinstance(dflt, list) else "scalar",
+                       "sequence_class": any(k in ai.SEQUENCE_LAYERS for k in bad)},
+                      {"user_limit": lim, "hyper_model_limit": impl["limit"], "documented_limit": lim_json(doc),
+                       "keys": bad, "replay": "AutoQKHyperModel(model, metrics, target, limit=user_limit).limit"},
+                      mirrored=(impl == o))
       # clause: every registered class present has the positions _get_quantizer will index
       for k, v in impl["limit"]:
         if k in ai.REGISTERED_LAYERS and len(v) < (4 if k in ai.SEQUENCE_LAYERS else 3):
@@ -640,6 +715,7 @@ def stream_qm(run, ai, rng, tier, default_cfg):
   budget_real = {"quick": 7, "thorough": 30}.get(tier, 7)
   budget_fast = {"quick": 64, "thorough": 600}.get(tier, 64)
   lines, impls, metas = [], [], []
+  walls_qm = []
   try:
     for ci, (mk, lim, cname, kw) in enumerate(main + rnn):
       model = models[mk]
@@ -671,6 +747,8 @@ def stream_qm(run, ai, rng, tier, default_cfg):
         run.count("qm_space_exhaustive")
       else:
         n = budget_fast if not is_rnn else budget_fast // 3
+        if is_rnn and isinstance(lim.get("default"), list) and len(lim["default"]) == 4 and ci == len(main) + 2:
+          n = budget_fast // 8          # the every-option sweep below already visits each slot's options
         scripts = [tuple(int(rng.integers(0, d)) for d in dims) for _ in range(n)]
         # every option of every dimension at least once
         for j, d in enumerate(dims):
@@ -683,7 +761,12 @@ def stream_qm(run, ai, rng, tier, default_cfg):
       run.extra.setdefault("qm_spaces", []).append({"model": mk, "limit": lim, "dims": dims, "assignments": space,
                                                     "scripts_run": len(scripts)})
       n_real = budget_real if not is_rnn else max(2, budget_real // 5)
+      if isinstance(lim.get("default"), list) and not is_rnn:
+        # partial entries completed from a list default: the trial MODEL of every assignment of a small space
+        n_real = max(n_real, min(len(scripts), 12))
       real_ix = set(np.linspace(0, len(scripts) - 1, num=min(n_real, len(scripts)), dtype=int).tolist())
+      import time as _time
+      _t0 = _time.time()
       for si, script in enumerate(scripts):
         mode["real"] = si in real_ix
         hm.groups = {}
@@ -700,7 +783,8 @@ def stream_qm(run, ai, rng, tier, default_cfg):
           run.count("qm_repeated_hp_name")
         if cap.get("mq_error"):
           run.count("qm_model_quantize_raised_" + cap["mq_error"])
-        lines.append({"op": "qm", "limit": lim_json(hm.limit), "config": cfg_json(cfg), "matches": mp,
+        # the MODEL starts from the user's dictionary (its `adjustLimit` is part of the run) ...
+        lines.append({"op": "qm", "limit": lim_json(lim), "config": cfg_json(cfg), "matches": mp,
                       "script": [[k, v] for k, v in hp.idx.items()],
                       "script_f": [[k, v] for k, v in hp.idx_f.items()],
                       "exc": exc, "tune_filters": hm.tune_filters, "layer_indexes": li, "layers": recs,
@@ -710,16 +794,30 @@ def stream_qm(run, ai, rng, tier, default_cfg):
         if qmodel is not None:
           obs = [observed_applied(ql, r["cls"]) for r, ql in zip(recs, qmodel.layers)] \
               if len(qmodel.layers) == len(recs) else "layer-count"
-        metas.append({"ci": ci, "mk": mk, "lim": lim, "limit": copy.deepcopy(hm.limit), "cfg": cfg, "recs": recs,
+        # ... and the ORACLE judges against the documented completion of the user's dictionary, derived
+        # independently of `_adjust_limit` / `hm.limit` (the limit the user SET, not the one the code kept)
+        doc = doc_limit(lim, ai.REGISTERED_LAYERS, ai.SEQUENCE_LAYERS)
+        if doc is None:
+          raise core.InfraError("qm configuration with a limit the constructor must refuse: %r" % (lim,))
+        metas.append({"ci": ci, "mk": mk, "lim": lim, "limit": doc, "hm_limit": copy.deepcopy(hm.limit),
+                      "cfg": cfg, "recs": recs,
                       "excluded": excluded, "script": list(script), "abits": abits, "obs": obs,
                       "model": model, "qmodel": qmodel, "kw": kw})
+      run.extra["qm_spaces"][-1]["real_model_quantize_runs"] = len(real_ix)
+      walls_qm.append(round(_time.time() - _t0, 1))
   finally:
     ai.model_quantize = real_mq
+  run.extra["qm_config_wall_s"] = walls_qm
 
   outs = core.run_driver("C20", lines)
   for line, impl, o, m in zip(lines, impls, outs, metas):
     ctx = {"model": m["mk"], "limit": m["lim"], "kwargs": {k: v for k, v in m["kw"].items()}, "script": m["script"],
            "activation_bits": m["abits"]}
+    if m["hm_limit"] != m["limit"]:
+      # the hyper-model completed the user's dictionary differently from the documented rule
+      ctx["documented_limit"] = m["limit"]
+      ctx["hyper_model_limit"] = m["hm_limit"]
+      run.count("qm_hm_limit_differs_from_documented")
     run.case(("qm", m["ci"], tuple(m["script"])),
              sample={"qm": ctx, "hp_calls": len(impl.get("log", [])), "q_dict": impl.get("qdict")}
              if m["script"] and m["script"][0] == 1 else None)
@@ -730,6 +828,9 @@ def stream_qm(run, ai, rng, tier, default_cfg):
         run.disagree("qm", ctx, impl, o)
       continue
     mirrored = True
+    if lim_json(m["hm_limit"]) != o["limit"]:
+      run.disagree("qm.limit", ctx, lim_json(m["hm_limit"]), o["limit"])
+      mirrored = False
     if impl["log"] != o["log"]:
       run.disagree("qm.hp_log", ctx, impl["log"], o["log"])
       mirrored = False
@@ -1039,8 +1140,10 @@ def run(run: core.Run, tier: str):
   run.extra["rule"] = (
       "stub hp drives the real AutoQKHyperModel on 5 tiny reference models (dense / conv+BN+depthwise / separable / "
       "names containing 'kernel','bias' / Conv1D+LSTM+SimpleRNN) x limit dictionaries aimed at every branch "
-      "(class keys, regex groups, list limits, singleton -> Fixed, default fill-in, layer_indexes, tune_filters "
-      "layer/block); all index scripts when the space fits the tier budget, else seeded samples covering every "
+      "(class keys, regex groups, list limits, singleton -> Fixed, default fill-in, PARTIAL class entries next "
+      "to 3- / 4-element / list-valued defaults with recurrent default wider and narrower than the activation "
+      "default, layer_indexes, tune_filters layer/block); the clause oracle's limits come from the user's "
+      "dictionary by the documented padding rule, independent of hm.limit; all index scripts when the space fits the tier budget, else seeded samples covering every "
       "option of every dimension; non-trivial = distinct (configuration, script); _get_quantizer call sequences "
       "with a shared group cache; delta on (delta_p, delta_n, rate, stress, integer sizes incl. ref, ref±1..3); "
       "compute_model_size on reference, model_quantize'd and hand-built mixed models x 4 size configurations")
